@@ -87,6 +87,7 @@ def run(an: Analysis, rep):
     from .common import SharedRules, purity, truthiness_rule
     from . import c01
     rep.run(purity, an, rep, "R10.P", ["from_code", "to_code"])
+    rep.run(c01.r015_every_line, an, SharedRules(rep, "R10.O", "the shift by the first line number covers every line of the mapping, the trailing entry included (shared with C01's R01.5)"))
     rep.run(c01.r015_order, an, SharedRules(rep, "R10.O", "the shift by the first line number covers every line of the mapping, the trailing entry included (shared with C01's R01.5)"))
     rep.run(truthiness_rule, an, rep, "R10.T", ["from_code", "to_code"], [("Instruction", "line_number"), ("AdditionalLine", "line")])
     rep.assumptions += ["format limits as in Objects/lnotab_notes.txt (reference/contracts.py LINE_LIMITS)"]
